@@ -8,12 +8,32 @@ Ghost state: the contents of each HDF5 dataset is a ghost array `ds_<col>` (upda
 resize / slice assignment, with bounds and shape obligations).  Ghost definitions: off(j) = number of records
 in chunks 0..j-1, tot(j) = sum of their counts (recursive definitions, given as preconditions; monotonicity of
 off is proved as an induction lemma).  ASSUMED: h5py Dataset.resize keeps the common prefix and `d[a:b] = x`
-writes exactly that range (stub); values fit the dataset dtype (_check_fits_dtype, own bounded contract)."""
+writes exactly that range (stub).  Round 2: the store CONVERTS integer values to the column type (`stored(v)`, equal to v only
+when v fits the type; h5py clips, numpy wraps) and `_check_fits_dtype` is an assumed contract (ValueError iff a value of the
+array it is given does not fit the dtype it is given): that every column nevertheless ends up as the exact concatenation is
+provable only because each value is range-checked, unconverted, against the target column's dtype before it is written
+(C07: a value is never stored silently different)."""
 from pyvc.api import *  # noqa: F401,F403
 from pyvc.values import LibFunc, LibNS, SymList
 from contracts.common import *  # noqa: F401,F403
 
 CR = "cooler.create._create"
+
+
+class _DType:
+    """the dtype of a ghost dataset.  Converting an INTEGER array to it stores, for every value, `stored(v)`; a value that fits
+    the type is stored unchanged (`fits(v) -> stored(v) == v`), a value that does not fit is stored as something else (numpy wraps,
+    h5py clips): `stored` is uninterpreted there."""
+
+    def __init__(self, w, col):
+        self.w, self.col = w, col
+
+    def pyvc_astype(self, I, a):
+        if self.w["kind"][self.col] != "int":
+            return a
+        st = self.w["stored"][self.col]
+        fa = a.at
+        return Arr(a.n, lambda k: st(fa(k)), "int")
 
 
 class _Dset:
@@ -31,7 +51,7 @@ class _Dset:
 
     def pyvc_getattr(self, I, attr, node):
         if attr == "dtype":
-            return Opaque("dtype of " + self.col)
+            return _DType(self.w, self.col)
         if attr == "resize":
             def resize(I, shape):
                 m = shape[0] if isinstance(shape, tuple) else shape
@@ -51,7 +71,8 @@ class _Dset:
         o = I.path.ordinal("dswrite")
         I.path.oblige("bounds", f"dataset-slice-within-length#{o}", And(0 <= a, a <= b, b <= old.n))
         I.path.oblige("shape", f"dataset-slice-matches-data#{o}", b - a == val.n)
-        self._set(I, Arr(old.n, lambda k, old=old, a=a, b=b, val=val: If(And(a <= k, k < b), val.at(k - a), old.at(k)),
+        conv = self.w["stored"][self.col] if self.w["kind"][self.col] == "int" else (lambda x: x)    # h5py converts on write
+        self._set(I, Arr(old.n, lambda k, old=old, a=a, b=b, val=val: If(And(a <= k, k < b), conv(val.at(k - a)), old.at(k)),
                          self.w["kind"][self.col]))
 
 
@@ -126,7 +147,27 @@ class WritePixels(Contract):
                             a._sum_term = RealV(csum(j)) if real_count else csum(j)
                         d[c] = a
                     return d
+                fits = {c: v.Fn("fits." + c, "int", "bool") for c in cols if kind[c] == "int"}
+                stored = {c: v.Fn("stored." + c, "int", "int") for c in cols if kind[c] == "int"}
+
+                def check_fits(I, values, dtype, name=None):
+                    # ASSUMED contract of _check_fits_dtype (own bounded contract): ValueError iff some value of the array it is
+                    # GIVEN does not fit the dtype it is given; the dtype must be the target dataset's
+                    col = dtype.col if isinstance(dtype, _DType) else None
+                    I.path.oblige("post", "range-check-against-the-target-columns-dtype", col is not None and (name is None or name == col))
+                    if col is None or kind[col] != "int":
+                        return None
+                    from pyvc.values import ExcVal, PyRaise
+                    a_ = values if isinstance(values, Arr) else None
+                    if a_ is None:
+                        raise Exception("_check_fits_dtype on a non-array")
+                    bad = exists(0, a_.n, lambda t: Not(fits[col](a_.at(t))))
+                    if I.path.branch(bad):
+                        raise PyRaise(ExcVal("ValueError", ("value does not fit the column dtype",)))
+                    I.path.assume(forall(0, a_.n, lambda t: fits[col](a_.at(t))))
+                    return None
                 w = {"cols": cols, "kind": kind, "m": m, "len": ln, "off": off, "tot": tot, "csum": csum, "F": F, "held": [False],
+                     "fits": fits, "stored": stored,
                      "grouppath": v.Str("grouppath"), "filepath": v.Str("filepath"),
                      "n0": {c: v.Int("preallocated." + c) for c in cols},
                      # flat copies for the replay adapter
@@ -141,7 +182,7 @@ class WritePixels(Contract):
                 return dict(filepath=w["filepath"], grouppath=w["grouppath"], columns=list(cols),
                             iterable=SymList(m, chunk, "chunks"), h5opts={}, lock=_Lock(w) if with_lock else None,
                             __free__={"h5py": LibNS("h5py", {"File": LibFunc("h5py.File", File)}),
-                                      "_check_fits_dtype": LibFunc("_check_fits_dtype", lambda I, *a: None)},
+                                      "_check_fits_dtype": LibFunc("_check_fits_dtype", check_fits)},
                             __ghost__=w)
             return f
         yield "count-column", mk(["bin1_id", "bin2_id", "count"], False)
@@ -163,7 +204,25 @@ class WritePixels(Contract):
              "off-monotone": forall2(0, m + 1, 0, m + 1, lambda j1, j2: Implies(j1 <= j2, off(j1) <= off(j2)))}
         for c, n0 in w["n0"].items():
             r["preallocated-" + c] = n0 >= 0
+        for c, st in w["stored"].items():
+            x = z3.Int("x." + c)
+            r["def-stored-" + c] = z3.ForAll([x], Implies(w["fits"][c](x), st(x) == x))
         return r
+
+    def _some_value_does_not_fit(self):
+        w = self._w()
+        m, ln = w["m"], w["len"]
+        bad = [exists(0, m, lambda j, c=c: exists(0, ln(j), lambda u, c=c, j=j: Not(w["fits"][c](w["F"][c](j, u))))) for c in w["fits"]]
+        return Or(*bad) if bad else False
+
+    # C07 "a stored value is never silently different from the exact aggregate": on a normal return every column IS the
+    # concatenation of the chunks (postcondition below) although the store converts to the column type - provable only because
+    # every value written was range-checked first; ValueError may be raised only if some value really does not fit.
+    raises_exact = False
+
+    @property
+    def raises(self):
+        return {"ValueError": lambda **a: self._some_value_does_not_fit()}
 
     def lemmas(self, path, v):
         """off-monotone by induction on j2: base off(j1) <= off(j1); step off(j1) <= off(j2) -> off(j1) <= off(j2+1)"""
